@@ -468,7 +468,7 @@ func runMore(a *Analyzer, r *Results) {
 
 	// ---- U9.send: the main loop never blocks on a send
 	{
-		fn := a.P.Func("(*leanhelix.MainLoop).run")
+		fn := a.P.Func(idMainRun)
 		seen := map[*ssa.Function]bool{}
 		var visit func(f *ssa.Function)
 		visit = func(f *ssa.Function) {
@@ -486,7 +486,7 @@ func runMore(a *Analyzer, r *Results) {
 								continue
 							}
 							elem := typeShort(st.Chan.Type().Underlying().(*types.Chan).Elem())
-							handoff := elem == "interfaces.ElectionTrigger" || elem == "leanhelix.blockWithProof"
+							handoff := elem == "interfaces.ElectionTrigger" || elem == syncMsgType
 							ok := !x.Blocking || handoff
 							r.Check("U9.send", props("C14", "C15", "C16", "C12"), "a send performed by the main loop is either non-blocking (select with default) or the single-producer overwrite hand-off: the main loop must stay able to cancel the worker's contexts", funcID(f)+"|"+chanLabel(c, st.Chan), a.P.InstrPos(in), ok,
 								"blocking send on "+chanLabel(c, st.Chan)+" in the main loop", "X")
